@@ -31,7 +31,9 @@ func keyPathsOf(t reflect.Type, prefix []keyElem, depth int, out *[][]keyElem) {
 	for t.Kind() == reflect.Pointer {
 		t = t.Elem()
 	}
-	if t.Kind() != reflect.Struct || shape.IsTextStruct(t) || depth > 4 {
+	// a root config type that embeds time.Time has UnmarshalText promoted to
+	// it: it is still a config struct, not a text leaf
+	if t.Kind() != reflect.Struct || (depth > 0 && shape.IsTextStruct(t)) || depth > 4 {
 		return
 	}
 	for i := 0; i < t.NumField(); i++ {
